@@ -73,6 +73,26 @@ def random_histories(ctx, props, count, steps, maxnodes):
         ctx.sample({"events": batch[-1][0], "ops": batch[-1][1][:6]})
 
 
+def empty_clones(ctx, forest, case):
+    """copy_self() (the first step of every copy) hands back an EMPTY element that belongs to no tree: no parent, no
+    siblings, no element before or after it, no children - whatever state the original is in."""
+    for i, o in enumerate(forest.objs):
+        if o is None or forest.dead(o) or not isinstance(o, T.Tag):
+            continue
+        if isinstance(getattr(o, "builder", None), T.EventBuilder):
+            continue        # the harness's own builder would replay its event list into the clone
+        try:
+            c = o.copy_self()
+        except Exception as e:
+            ctx.fail(case, "copy_self() raised %s" % type(e).__name__, i, None)
+            return
+        links = (c.parent, c.next_sibling, c.previous_sibling, c.next_element, c.previous_element)
+        if c is o or any(x is not None for x in links) or list(c.contents):
+            ctx.fail(case, "copy_self() of element %d is not an empty element of its own: it has links into the original tree" % i,
+                     [forest.oid(x) for x in links], [None] * 5)
+            return
+
+
 def parse_only_documents(ctx):
     """Documents parsed by html.parser with a parse_only filter: what is kept must be one consistently linked tree
     (rejected elements must leave no trace in any link). Oracle only."""
